@@ -14,7 +14,7 @@ RULE = ('correspondence A: the backward passes of FWD_J1, FWD_J2PLUS, INV_J1, IN
         'distinct by (direction, pair, J, size, layout, masks, subset).')
 TRUSTED = TRUSTED_COMMON + ['the symmetry / reversal hypotheses on the shipped tables are discharged in C18_tables (level1_symmetric, qshift_revpair, qshift_syn_rev_ana)']
 ASSUMES = ['theorems: colfilter with a symmetric odd filter is self-adjoint for every size (up to the factor 2 a general ring cannot cancel; exact over Z), q2c/c2q are mutually adjoint quad by quad; '
-           'coldfilt(.,ha,hb)^T = colifilt(.,hb,ha) for a reversed pair, every column length = 0 mod 4, even filter length and both layouts (C06_coldfilt_colifilt_adjoint, on the model: C06_dfilt_ifilt_adjoint_col; the reversal holds exactly for every shipped table: C06_tables_revpair); whole levels in 2-D with all inputs present: FWD_J2PLUS/INV_J2PLUS.backward (C06_qshift_level_adjoint) and FWD_J1/INV_J1.backward (C06_level1_adjoint) are the adjoints of the forward passes for every input and cotangent, over any ring where 2 cancels; the composition over levels is autograd's chain rule (trusted); layouts, skip masks, absent inputs and grad subsets: exact correspondence of the backward passes + the Jacobian oracle']
+           'coldfilt(.,ha,hb)^T = colifilt(.,hb,ha) for a reversed pair, every column length = 0 mod 4, even filter length and both layouts (C06_coldfilt_colifilt_adjoint, on the model: C06_dfilt_ifilt_adjoint_col; the reversal holds exactly for every shipped table: C06_tables_revpair); whole levels in 2-D with all inputs present: FWD_J2PLUS/INV_J2PLUS.backward (C06_qshift_level_adjoint) and FWD_J1/INV_J1.backward (C06_level1_adjoint) are the adjoints of the forward passes for every input and cotangent, over any ring where 2 cancels; the composition over levels is the chain rule of autograd (trusted); layouts, skip masks, absent inputs and grad subsets: exact correspondence of the backward passes + the Jacobian oracle']
 
 
 def corr_jobs(tier, rng):
